@@ -612,7 +612,7 @@ Section Gen.
   Qed.
 
   Lemma collect_all_spec t xs : forall e es b,
-    Machine.collect (f_nxt e) (f_nxt e + f_aux e) t xs = (es, b) ->
+    Machine.collect 0 (f_nxt e + f_aux e) t xs = (es, b) ->
     f_acc (collect_all t xs e) = f_acc e ++ es /\
     f_nxt e + f_aux (collect_all t xs e) = b /\
     f_nxt (collect_all t xs e) = f_nxt e.
@@ -620,12 +620,12 @@ Section Gen.
     induction xs as [|x r IH]; intros e es b H; cbn [collect_all fold_left Machine.collect] in *.
     - inversion H; subst. rewrite app_nil_r. auto.
     - fold (collect_all t r (fcollect t (nxt x) e (sto x))).
-      destruct (Machine.collect (f_nxt e) (f_nxt e + f_aux e + (nxt x - f_nxt e)) t r) as [es' b'] eqn:E.
+      rewrite !Nat.sub_0_r in H.
+      destruct (Machine.collect 0 (f_nxt e + f_aux e + nxt x) t r) as [es' b'] eqn:E.
       inversion H; subst es b.
       destruct (IH (fcollect t (nxt x) e (sto x)) es' b') as [A [B C]].
       { cbn [fcollect f_nxt f_aux]. rewrite Nat.add_assoc. exact E. }
       rewrite A, C. cbn [fcollect f_acc f_aux f_nxt] in *. rewrite <- app_assoc. cbn [app].
-      replace (f_nxt e + f_aux e - f_nxt e) with (f_aux e) by lia.
       rewrite dfast_eq, <- den_fast_eq. auto.
   Qed.
 
@@ -682,7 +682,7 @@ Section Gen.
       eapply FSpec_ev; [exists 0, 2, 0; intros n _; cbn [Nat.add]; rewrite exec_S, exec_S; reflexivity|].
       apply (findall_loop d t (KSeq _ KNil) g0 h W xs err (fr0 [] nx) h _ _ _ HI).
       destruct err; cbn [fst snd rend]; [auto|].
-      destruct (Machine.collect (nxt (mkst h nx)) (nxt (mkst h nx)) t xs) as [es b] eqn:EC. cbn [nxt mkst] in EC.
+      destruct (Machine.collect 0 (nxt (mkst h nx)) t xs) as [es b] eqn:EC. cbn [nxt mkst] in EC.
       destruct (collect_all_spec t xs (fr0 [] nx) es b) as [A [B C]].
       { cbn [f_nxt f_aux fr0]. rewrite Nat.add_0_r. exact EC. }
       cbn [f_acc f_aux f_nxt fr0 app] in A, B, C.
